@@ -299,8 +299,8 @@ def r6_nan_policy(rep, facts):
         rep.check(R, d.split(' as ')[0].lstrip('<'), ok, 'if v.is_nan() { v = v.copysign(1.0) }', f'`{d}` does not normalise the NaN sign like its twin', facts.loc(b))
 
 
-def r7_widening(rep, facts):
-    R = rep.rule('C11/R7', 'a narrow number is widened exactly before it is stored: every Serializer::serialize_f32 / i8..i32 / u8..u32 that forwards to serialize_f64 / '
+def r7_widening(rep, facts, rid='C11/R7'):
+    R = rep.rule(rid, 'a narrow number is widened exactly before it is stored: every Serializer::serialize_f32 / i8..i32 / u8..u32 that forwards to serialize_f64 / '
                  'serialize_i64 hands over the same number (for f32 the double with the same value, not one re-read from a decimal rendering).  Decided by evaluating the '
                  'methods on boundary values with the wide method recorded', floor=10)
     from .den import RecInterp, EvalPanic
@@ -323,14 +323,17 @@ def r7_widening(rep, facts):
             if not d or not facts.has_body(d):
                 continue
             b = facts.body(d)
-            # only methods that hand the number on to the wide method of the same serializer (plain forwarders to another serializer are followed there)
-            if not any(x.get('k') == 'mcall' and x.get('name') == wide and peel(x['recv']).get('res') == 'Local' for x in walk(b['body'])):
+            # only methods that hand the number on to another serialize_* method of the same serializer (followed down to the wide one; plain forwarders
+            # to another serializer are judged there)
+            selfn = [p_['name'] for p_ in b['params'] if p_.get('k') == 'p_bind'][0]
+            if not any(x.get('k') == 'mcall' and (x.get('name') or '').startswith('serialize_') and peel(x['recv']).get('path') == selfn for x in walk(b['body'])):
                 continue
             pn = [p_['name'] for p_ in b['params'] if p_.get('k') == 'p_bind']
             bad = []
             try:
                 for v in samples:
                     it = FloatRec(Evaluator(facts), {wide})
+                    it.checked_arith = True      # a lossy cast on the way (`v as i32`) is a panic of the evaluation
                     try:
                         it.val(b['body'], {pn[0]: ('self',), pn[1]: v, '@assign': {}})
                     except EvalPanic as e:
